@@ -1848,7 +1848,8 @@ func (patternSelf RegexPatternDef) Matches(value interface{}) bool {
 		return false
 	}
 
-	matches, err := regexp.MatchString(patternSelf.pattern, (value).(string))
+	// (a value of a named string type is of kind String but is not a `string`: read it through reflection)
+	matches, err := regexp.MatchString(patternSelf.pattern, reflect.ValueOf(value).String())
 	if err == nil && matches {
 		return true
 	}
